@@ -149,7 +149,13 @@ namespace bloch::update {
                 }
                 if (start == pos)
                     break;
-                int value = std::stoi(v.substr(start, pos - start));
+                int value = 0;
+                try {
+                    value = std::stoi(v.substr(start, pos - start));
+                } catch (const std::exception&) {
+                    // Component does not fit in an int: treat the whole version as invalid.
+                    return SemVer{};
+                }
                 if (idx == 0)
                     sem.major = value;
                 else if (idx == 1)
